@@ -16,6 +16,12 @@ def aloneB (w : World) (h : Nat) : Bool :=
 def notLastB (w : World) (a : Acc) : Bool :=
   decide (ddLen ((w.file a.file).dd a.slot) + ddOff ((w.file a.file).dd a.slot) ≠ (w.file a.file).endOff)
 
+/-- the element behind `h` is contiguous, not the last thing in its file, and `h` is appendable: growing it promotes it -/
+def mayPromoteB (w : World) (h : Nat) : Bool :=
+  match w.acc h with
+  | none => false
+  | some a => !a.special && a.appendable && notLastB w a
+
 def opSafeB (w : World) : Op → Bool
   | .open fi mode _ =>
     noHandleInB w fi &&
@@ -23,25 +29,16 @@ def opSafeB (w : World) : Op → Bool
       (!((w.file fi).dirtyEnd || (w.file fi).blkDirty.any id) &&
        ((w.file fi).disk.drop (endOffOf (w.file fi).ndds (w.file fi).blkOff (w.file fi).mem)).all (· == 0)))
   | .close fi => noHandleInB w fi
-  | .startaccess h fi tag ref _ _ =>
-    (w.acc h).isNone && userKeyB (tag, ref) &&
-    (match (w.file fi).select tag ref with
-     | some s => ((w.file fi).dd s).ext.isSome || noHandleOnB w fi s
-     | none => true)
-  | .startwrite h fi tag ref _ =>
-    (w.acc h).isNone && userKeyB (tag, ref) &&
-    (match (w.file fi).select tag ref with
-     | some s => ((w.file fi).dd s).ext.isSome || noHandleOnB w fi s
-     | none => true)
-  | .setlength h _ => aloneB w h
+  | .startaccess h _ tag ref _ _ => (w.acc h).isNone && userKeyB (tag, ref)
+  | .startwrite h _ tag ref _ => (w.acc h).isNone && userKeyB (tag, ref)
   | .hlcreate h fi tag ref blen nblk =>
     (w.acc h).isNone && userKeyB (tag, ref) && decide (1 ≤ blen) && decide (1 ≤ nblk) &&
     (match (w.file fi).select tag ref with
      | some s => noHandleOnB w fi s
      | none => true)
   | .hlconvert h blen nblk => decide (1 ≤ blen) && decide (1 ≤ nblk) && aloneB w h
-  | .seek h _ _ => aloneB w h
-  | .write h bs => !bs.isEmpty && aloneB w h
+  | .seek h _ _ => aloneB w h || !mayPromoteB w h
+  | .write h bs => !bs.isEmpty && (aloneB w h || !mayPromoteB w h)
   | .deldd fi tag ref =>
     userKeyB (tag, ref) && (match (w.file fi).select tag ref with | some s => noHandleOnB w fi s | none => true)
   | _ => true
@@ -94,16 +91,6 @@ theorem aloneB_sound (w : World) (h : Nat) (hb : aloneB w h = true) : Alone w h 
   · exact absurd es c
   · exact c
 
-theorem select_noHandle (w : World) (fi tag ref : Nat)
-    (h : (match (w.file fi).select tag ref with
-          | some s => ((w.file fi).dd s).ext.isSome || noHandleOnB w fi s
-          | none => true) = true) :
-    ∀ s, (w.file fi).select tag ref = some s → ((w.file fi).dd s).ext = none → NoHandleOn w fi s := by
-  intro s hs hx
-  rw [hs] at h
-  simp only [hx, Option.isSome_none, Bool.false_or] at h
-  exact noHandleOnB_sound w fi s h
-
 theorem opSafeB_sound (w : World) (op : Op) (h : opSafeB w op = true) : OpSafe w op := by
   cases op with
   | «open» fi mode ndds =>
@@ -131,11 +118,11 @@ theorem opSafeB_sound (w : World) (op : Op) (h : opSafeB w op = true) : OpSafe w
   | close fi => exact noHandleInB_sound w fi h
   | startaccess h' fi tag ref wr app =>
     simp only [opSafeB, Bool.and_eq_true, Option.isNone_iff_eq_none] at h
-    exact ⟨h.1.1, userKeyB_sound _ h.1.2, select_noHandle w fi tag ref h.2⟩
+    exact ⟨h.1, userKeyB_sound _ h.2⟩
   | startwrite h' fi tag ref len =>
     simp only [opSafeB, Bool.and_eq_true, Option.isNone_iff_eq_none] at h
-    exact ⟨h.1.1, userKeyB_sound _ h.1.2, select_noHandle w fi tag ref h.2⟩
-  | setlength h' len => exact aloneB_sound w h' h
+    exact ⟨h.1, userKeyB_sound _ h.2⟩
+  | setlength h' len => trivial
   | hlcreate h' fi tag ref blen nblk =>
     simp only [opSafeB, Bool.and_eq_true, Option.isNone_iff_eq_none, decide_eq_true_eq] at h
     obtain ⟨⟨⟨⟨h1, h2⟩, h3⟩, h4⟩, h5⟩ := h
@@ -149,14 +136,25 @@ theorem opSafeB_sound (w : World) (op : Op) (h : opSafeB w op = true) : OpSafe w
   | setblockinfo h' blen nblk => trivial
   | appendable h' => trivial
   | seek h' off origin =>
-    intro a _ _ _ _ _
-    exact aloneB_sound w h' h
+    intro a ha hsp happ _ hnl
+    simp only [opSafeB, Bool.or_eq_true, Bool.not_eq_true'] at h
+    rcases h with h | h
+    · exact aloneB_sound w h' h
+    · exfalso
+      have hnl' : notLastB w a = true := by unfold notLastB; exact decide_eq_true hnl
+      simp [mayPromoteB, ha, hsp, happ, hnl'] at h
   | tell h' => trivial
   | inquire h' => trivial
   | read h' n => trivial
   | write h' bs =>
-    simp only [opSafeB, Bool.and_eq_true, Bool.not_eq_true', List.isEmpty_eq_false_iff] at h
-    exact ⟨h.1, fun _ _ _ _ _ _ _ => aloneB_sound w h' h.2, fun _ _ _ => aloneB_sound w h' h.2⟩
+    simp only [opSafeB, Bool.and_eq_true, Bool.or_eq_true, Bool.not_eq_true', List.isEmpty_eq_false_iff] at h
+    refine ⟨h.1, ?_⟩
+    intro a ha hsp _ happ _ hnl
+    rcases h.2 with h2 | h2
+    · exact aloneB_sound w h' h2
+    · exfalso
+      have hnl' : notLastB w a = true := by unfold notLastB; exact decide_eq_true hnl
+      simp [mayPromoteB, ha, hsp, happ, hnl'] at h2
   | trunc h' n => trivial
   | endaccess h' => trivial
   | deldd fi tag ref =>
